@@ -33,6 +33,11 @@ THEOREMS = {
     # theorems it really contains (order −1 decomposition and bound, exact static gain for every order, sign convention, perturbation)
     "SpecKitV.Lemmas.Delay": ["detr_gain", "segDFT_gain", "delay_decomposition", "delay_bound", "tf_of_pure_delay", "tf_of_pure_delay_arg",
                               "tf_delay_perturbed", "tf_delay_perturbed_abs"],
+    # every detrending order: the detrended windowed DFT is a plain DFT with the effective window u = (I-P)(w e^{-iwn}); the oracle's
+    # coefficient vector c (delay_coeffs) and its l1 / l2 bounds (delay_eps) are `delayCoeffs`, `delay_bound_any_order_l1/_l2`
+    "SpecKitV.Lemmas.DelayEff": ["segDFT_effWin", "delay_decomposition_eff", "delay_bound_eff", "delay_bound_any_order",
+                                 "delay_coeffs_identity", "delayCoeffs_l1", "delay_bound_coeffs_l1", "delay_bound_coeffs_l2",
+                                 "delay_bound_any_order_l1", "delay_bound_any_order_l2"],
 }
 CONTRACTS = ["np.linalg.qr (through _build_Q) returns orthonormal columns spanning the polynomials of degree <= order (checked numerically by C08's correspondence)",
              "CUDA kernels are translated from core_cuda.py source and executed only under Numba's CUDA simulator",
@@ -40,8 +45,8 @@ CONTRACTS = ["np.linalg.qr (through _build_Q) returns orthonormal columns spanni
 ASSUMPTIONS = ["rounding and fastmath re-association are covered by the stated forward tolerance (vk.props._an.bin_tol), not by theorem",
                "the delay deviation |Hxy - e^{-i w d}| is bounded per bin by max_s |sum_k c_k x(s+k)| / sqrt(XX) with c the shifted-window difference: "
                "for order -1 this is exactly `delay_decomposition`/`delay_bound` evaluated numerically (B = max|x| over the segment); for orders >= 0 the "
-               "same identity is applied to the effective window u = (I-P)(w e^{-i w n}) (P the symmetric polynomial projection), which is plain "
-               "algebra but NOT a Lean theorem here; deterministic (l-infinity and l2 Hoelder) for every record, and for unit white Gaussian records "
+               "same identity is applied to the effective window u = (I-P)(w e^{-i w n}) (P the symmetric polynomial projection): "
+               "`segDFT_effWin`, `delay_coeffs_identity`, `delay_bound_any_order_l1/_l2` (Lemmas/DelayEff); deterministic (l-infinity and l2 Hoelder) for every record, and for unit white Gaussian records "
                "additionally the 8-sigma quantile 8*||c||_2 (failure probability < 1e-13 per segment); passing from per-segment to the averaged "
                "estimate uses mean|X_s| <= sqrt(XX) (`tf_delay_perturbed` is the one-segment statement)",
                "the NumPy fallbacks are tied to the reference by correspondence (C01) and by the backend-agreement part of this oracle, not by theorem"]
